@@ -513,9 +513,98 @@ def migrate_step(cur, sdl_text, want_detail=True, verify=True, full=False):
             mon['text'] = {'rejected': errinfo(e), 'script': script[:1500]}
     except Exception as e:  # noqa
         mon['text'] = {'rejected': errinfo(e)}
+    if SESSION_FORMS[0]:
+        mon.update(session_forms(cur, sdl_text, B, dB))
     r['mon'] = mon
     r['t'] = round(time.time() - t0, 2)
     return r, M, B
+
+
+SESSION_FORMS = [False]
+_COMPILER = None
+
+
+def session_forms(cur, sdl_text, B, dB):
+    """the SERVER compiler's migration block (edb/server/compiler/ddl.py), statement by statement
+    on a compiler connection state, the way a client session drives it:
+      'session'      START MIGRATION TO {B}; POPULATE MIGRATION; COMMIT MIGRATION
+      'interactive'  START MIGRATION; loop DESCRIBE CURRENT MIGRATION AS JSON -> execute the proposed
+                     statements or ALTER CURRENT MIGRATION REJECT PROPOSED (a deterministic policy
+                     rejects some proposals); POPULATE MIGRATION; COMMIT MIGRATION
+    Whenever COMMIT MIGRATION is accepted the resulting schema must be the target; a refusal
+    ("cannot commit incomplete migration") is a correct outcome of the interactive form."""
+    global _COMPILER
+    import zlib
+    from edb import edgeql, errors
+    from edb.schema import schema as s_schema
+    from edb.server import compiler as edbcompiler
+    from edb.server.compiler import compiler as compiler_mod
+    out = {}
+    if _COMPILER is None:
+        _COMPILER = vrt.new_compiler()
+    std = _COMPILER.state.std_schema
+    user = cur._top_schema if isinstance(cur, s_schema.ChainedSchema) else cur
+
+    def ctx_of():
+        return edbcompiler.new_compiler_context(
+            compiler_state=_COMPILER.state, user_schema=user, modaliases={None: 'default'})
+
+    def execute(ctx, text):
+        return compiler_mod.compile(ctx=ctx, source=edgeql.Source.from_string(text))
+
+    def result_of(ctx):
+        return s_schema.ChainedSchema(std, ctx.state.current_tx().get_user_schema(), s_schema.EMPTY_SCHEMA)
+
+    try:
+        ctx = ctx_of()
+        for st in (f'START MIGRATION TO {{ {sdl_text} }}', 'POPULATE MIGRATION', 'COMMIT MIGRATION'):
+            execute(ctx, st)
+        out['session'] = compare(result_of(ctx), B, dB)
+    except Exception as e:  # noqa
+        # a REFUSED session commits nothing: not a violation of "an accepted migration yields the
+        # target" (recorded; the library-level forms above decide whether the diff itself is complete)
+        out['session'] = 'eq'
+        out['session_refused'] = errinfo(e)
+    try:
+        ctx = ctx_of()
+        execute(ctx, f'START MIGRATION TO {{ {sdl_text} }}')
+        log = []
+        h = zlib.crc32(sdl_text.encode())
+        for k in range(40):
+            execute(ctx, 'DESCRIBE CURRENT MIGRATION AS JSON')
+            mstate = ctx.state.current_tx().get_migration_state()
+            if not mstate.last_proposed:
+                break
+            step = mstate.last_proposed[0]
+            text = ' '.join(' '.join(step.statements).split())
+            # policy: reject about one proposal in three, preferring destructive ones
+            rej = ((h >> k) & 3 == 0) or ('drop ' in text.lower() and (h >> (k + 7)) & 1 == 0)
+            if rej and sum(1 for x in log if x[0] == 'R') < 6:
+                log.append('R ' + text[:120])
+                execute(ctx, 'ALTER CURRENT MIGRATION REJECT PROPOSED')
+            else:
+                log.append('A ' + text[:120])
+                for st in step.statements:
+                    execute(ctx, st)
+        execute(ctx, 'POPULATE MIGRATION')
+        try:
+            execute(ctx, 'COMMIT MIGRATION')
+        except errors.EdgeDBError as e:
+            out['interactive'] = 'eq'       # refused: nothing was committed
+            out['interactive_refused'] = str(e)[:120]
+            return out
+        c = compare(result_of(ctx), B, dB)
+        if c != 'eq':
+            c['log'] = log[:20]
+        out['interactive'] = c
+        out['interactive_rejections'] = sum(1 for x in log if x[0] == 'R')
+    except errors.EdgeDBError as e:
+        out['interactive'] = 'eq'           # the session itself was refused
+        out['interactive_refused'] = 'session: ' + str(e)[:120]
+    except Exception as e:  # noqa
+        out['interactive'] = 'eq'
+        out['interactive_refused'] = 'error: ' + json.dumps(errinfo(e))[:200]
+    return out
 
 
 def compare(S, B, dB=None, dS=None, own=True):
@@ -571,6 +660,7 @@ def run_e2e_case(case):
     if case.get('to_empty'):
         chain.append('module default {}')
     vf = case.get('verify_from', 0)
+    SESSION_FORMS[0] = bool(case.get('session'))
     full = bool(case.get('full'))
     for i, sdl in enumerate(chain):
         r, committed, B = migrate_step(cur, sdl, want_detail=case.get('detail', True),
